@@ -117,7 +117,11 @@ def _work(chunk):
     out = []
     n = 0
     for g in chunk:
-        n += run_group(g, out)
+        try:
+            n += run_group(g, out)
+        except report.Livelock as e:
+            out.append(report.livelock_violation(g['impl'], e, {'impl': g['impl'], 'compression': g['compression'],
+                                                               'threshold': g['threshold'], 'case': list(g['cases'][0])}))
     return [v.to_json() for v in out[:200]], n, len(out)
 
 
